@@ -334,8 +334,31 @@ theorem top_equiv_gt : bodiesEquiv (getterCtx (Base.new 127))
 /-- `raw ^ raw` is the constant 0, `raw ^ value` has no normal form -/
 example : nf { rawTy := .u8 } ({ rawTy := .u8 } : Ctx).init (.bin .bxor (.var .raw) (.var .raw))
     = some (.ok (.int .u8 (zeros 8))) := by decide +kernel
-example : nf { rawTy := .u8, arg := .int .u8 } ({ rawTy := .u8, arg := .int .u8 } : Ctx).init
-    (.bin .bxor (.var .raw) (.var .fieldValue)) = none := by decide +kernel
+/-- `raw ^ value` is the exclusive or of two input bits per position (`x2`), a normal form of its own -/
+example : (nf { rawTy := .u8, arg := .int .u8 } ({ rawTy := .u8, arg := .int .u8 } : Ctx).init
+    (.bin .bxor (.var .raw) (.var .fieldValue))).isSome = true := by decide +kernel
+
+/-- the merge idiom `raw ^ ((raw ^ new) & M)` for `(raw & !M) | new`: inside `M` the two occurrences of the old bit cancel,
+    outside the masked difference vanishes – accepted (array setter with gaps, every index); without the mask it is not -/
+def mergeForOr : Expr → Expr
+  | .assertE c b => .assertE c (mergeForOr b)
+  | .letE v e b => .letE v e (mergeForOr b)
+  | .bin .or (.bin .and x (.not m)) y => .bin .bxor x (.bin .and (.bin .bxor x y) m)
+  | e => e
+
+theorem arr_setter_merge : ∀ m, setterBody (Base.new 24) Ex.arr = some m →
+    mergeForOr m ≠ m ∧ bodiesEquiv (setterCtx (Base.new 24) Ex.arr) (mergeForOr m) m = true := by
+  intro m h; injection h with h; subst h; decide +kernel
+
+def mergeNoMask : Expr → Expr
+  | .assertE c b => .assertE c (mergeNoMask b)
+  | .letE v e b => .letE v e (mergeNoMask b)
+  | .bin .or (.bin .and x (.not _)) y => .bin .bxor x (.bin .bxor x y)
+  | e => e
+
+example : ∀ m, setterBody (Base.new 24) Ex.arr = some m →
+    bodiesEquiv (setterCtx (Base.new 24) Ex.arr) (mergeNoMask m) m = false := by
+  intro m h; injection h with h; subst h; decide +kernel
 
 /-- a signed getter written with an arithmetic shift: `((raw as i64) >> 48) as i16` for `(((raw >> 48) & 0xffff) << 0) as i16`
     (the field is the top 16 bits of a `u64`): accepted; shifting by 47 is not -/
